@@ -309,3 +309,10 @@ for _pid, _cases in (('C02', []), ('C06', ['e2e-server']), ('C07', []), ('C08', 
     else:
         _p['case_exclude'] = [n for n in ('e2e-server', 'e2e-client') if n not in _cases]
     _p['trusted'] = list(_p['trusted']) + ['end-to-end run: one network namespace for both ends of the veth pair (arp_ignore=1 so that the kernel does not answer for the other end); the observer\'s own AF_PACKET capture and /proc readings']
+
+# C18 on the real program: psa-dhcpd started on the text form of generated configurations in a private network namespace
+PROPS['C18']['tests'] = list(PROPS['C18']['tests']) + ['TestC18Binary']
+PROPS['C18']['monitor_tags'] = set(PROPS['C18']['monitor_tags']) | {1812}
+PROPS['C18']['rule'] = PROPS['C18']['rule'] + (' PLUS the unmodified psa-dhcpd binary started (flag parsing, loadConfig, proto.UnmarshalText, server.New on a real veth interface with the '
+    'case\'s hardware address and address, read through netlink) on the text form of the 25 directed and 40 / 1 500 generated configurations in a private network namespace: '
+    'comes up ("is ready") or refuses to start, against the specification\'s verdict (tag 1812); skipped where network namespaces are unavailable.')
